@@ -71,6 +71,28 @@ func runCore(size int64, ops [][2]int64) coreCase {
 	return c
 }
 
+// runs prints a list of 16-bit numbers run-length compressed: (a, n) = a, a+1, ..., a+n-1 (mod 2^16);
+// the panic marker [-1] is printed as (-1, 0).
+func runs(xs []int64) string {
+	var ps []string
+	for i := 0; i < len(xs); {
+		if xs[i] < 0 {
+			ps = append(ps, cq.T(cq.Z(xs[i]), "0"))
+			i++
+
+			continue
+		}
+		j := i + 1
+		for j < len(xs) && xs[j] == (xs[j-1]+1)&0xFFFF {
+			j++
+		}
+		ps = append(ps, cq.T(cq.Z(xs[i]), cq.Z(int64(j-i))))
+		i = j
+	}
+
+	return cq.L(ps)
+}
+
 func (c coreCase) toCase(buckets []string) cq.Case {
 	ops := make([]string, len(c.Ops))
 	for i, op := range c.Ops {
@@ -79,7 +101,7 @@ func (c coreCase) toCase(buckets []string) cq.Case {
 	outs := make([]string, len(c.Outs))
 	triv := true
 	for i, o := range c.Outs {
-		outs[i] = cq.LZ(o)
+		outs[i] = runs(o)
 		if len(o) > 0 {
 			triv = false
 		}
@@ -475,7 +497,7 @@ func (c apiCase) toCase(buckets []string) cq.Case {
 	for i, t := range c.Outs {
 		ps := make([]string, len(t))
 		for j, p := range t {
-			ps[j] = cq.T(cq.Z(p.SSRC), cq.LZ(p.Seqs))
+			ps[j] = cq.T(cq.Z(p.SSRC), runs(p.Seqs))
 			if p.SSRC != c.Sentinel {
 				triv = false
 			}
